@@ -124,11 +124,11 @@ def remeshNewV (s : State α) (cMin cMax : α) (bins? : Option Nat) : α :=
 
 /-- `changeSizeClasses(cMin, cMax, bins, resetPSD)` (347-384).
 Note `resetPSD = True` calls `reset()` with `resetBounds = True`: the requested grid is discarded
-and the original one restored. -/
+and the original one restored.  `np.interp` raises on an empty sample array (a grid without classes) unless there is nothing to evaluate. -/
 def change (s : State α) (cMin cMax : α) (bins? : Option Nat) (resetPSD : Bool) : Option (State α) :=
   let s1 := retarget s cMin cMax bins?
   if resetPSD then some (reset s1 true)
-  else if s.psd.length ≠ s.size.length ∨ s.psd.length + 1 ≠ s.bounds.length then none
+  else if s.psd.length ≠ s.size.length ∨ s.psd.length + 1 ≠ s.bounds.length ∨ (s.psd.length = 0 ∧ s1.bins ≠ 0) then none
   else
     let oldV := moment s.psd s.size 3
     let s2 := reset s1 false
@@ -141,38 +141,48 @@ def change (s : State α) (cMin cMax : α) (bins? : Option Nat) (resetPSD : Bool
 def populated (psd xs : List α) : List α :=
   ((psd.zip xs).filter (fun px => (1 : α) < px.1)).map (fun px => px.2)
 
-/-- `adjustSizeClassesEuler(checkDissolution)` (402-444): new state and the returned
-`(change, newIndices)` -/
-def adjust (s : State α) (checkDiss : Bool) : Option (State α × Bool × Option Nat) :=
+/-- first half of `adjustSizeClassesEuler` (426-430): extend by a quarter of the original class
+count when the last class holds more than one particle.  Result: state, `change`, `newIndices`. -/
+def adjustAdd (s : State α) : Option (State α × Bool × Option Nat) :=
   match s.psd.getLast? with
   | none => none
   | some last =>
-    let r1 : Option (State α × Bool × Option Nat) :=
-      if (1 : α) < last then (add s (s.origBins / 4)).map (fun s' => (s', true, some s.bins))
-      else some (s, false, none)
-    match r1 with
+    if (1 : α) < last then (add s (s.origBins / 4)).map (fun s' => (s', true, some s.bins))
+    else some (s, false, none)
+
+/-- the re-mesh decision of `adjustSizeClassesEuler` (432-443): `none` = the code raises,
+`some none` = no re-mesh, `some (some (cMin, cMax, bins))` = arguments of `changeSizeClasses`. -/
+def meshTarget (s : State α) (checkDiss : Bool) : Option (Option (α × α × Nat)) :=
+  if s.adaptive then
+    match s.bounds.head?, s.bounds.getLast? with
+    | some b0, some bl =>
+      if s.maxBins < s.bins then some (some (b0, bl, s.minBins))
+      else if checkDiss ∧ ((10 : Nat) : α) * b0 < bl then
+        if s.psd.any (fun p => (1 : α) < p) then
+          if s.psd.length ≠ s.size.length ∨ s.psd.length + 1 ≠ s.bounds.length then none
+          else
+            match s.size[s.minBins / 2]? with
+            | none => none
+            | some thr =>
+              if maxList (populated s.psd s.size) < thr then
+                some (some (b0, maxList (populated s.psd s.bounds.tail), s.maxBins))
+              else some none
+        else some none
+      else some none
+    | _, _ => none
+  else some none
+
+/-- `adjustSizeClassesEuler(checkDissolution)` (402-444): new state and the returned
+`(change, newIndices)` -/
+def adjust (s : State α) (checkDiss : Bool) : Option (State α × Bool × Option Nat) :=
+  match adjustAdd s with
+  | none => none
+  | some (s1, chg, ni) =>
+    match meshTarget s1 checkDiss with
     | none => none
-    | some (s1, chg, ni) =>
-      if s1.adaptive then
-        match s1.bounds.head?, s1.bounds.getLast? with
-        | some b0, some bl =>
-          if s1.maxBins < s1.bins then
-            (change s1 b0 bl (some s1.minBins) false).map (fun s2 => (s2, true, none))
-          else if checkDiss ∧ ((10 : Nat) : α) * b0 < bl then
-            if s1.psd.any (fun p => (1 : α) < p) then
-              if s1.psd.length ≠ s1.size.length ∨ s1.psd.length + 1 ≠ s1.bounds.length then none
-              else
-                match s1.size[s1.minBins / 2]? with
-                | none => none
-                | some thr =>
-                  if maxList (populated s1.psd s1.size) < thr then
-                    (change s1 b0 (maxList (populated s1.psd s1.bounds.tail)) (some s1.maxBins) false).map
-                      (fun s2 => (s2, true, none))
-                  else some (s1, chg, ni)
-            else some (s1, chg, ni)
-          else some (s1, chg, ni)
-        | _, _ => none
-      else some (s1, chg, ni)
+    | some none => some (s1, chg, ni)
+    | some (some (cMin, cMax, bins)) =>
+      (change s1 cMin cMax (some bins) false).map (fun s2 => (s2, true, none))
 
 /-- `UpdatePBMEuler(time, N)` without recording: populations below one particle are dropped -/
 def update (s : State α) (N : List α) : State α :=
